@@ -57,7 +57,7 @@ C13(r) ==
   IF r.err # "" THEN [no_exception |-> FALSE] ELSE
   [ no_exception    |-> TRUE,
     in_domain       |-> AllRanks(r, LAMBDA rk : WellFormedRows(RowsOf(rk))),
-    input_faithful  |-> AllRanks(r, LAMBDA rk : Faithful(RowsOf(rk), Range(rk.file))),
+    input_faithful  |-> AllRanks(r, LAMBDA rk : RowsFaithful(RowsOf(rk), Range(rk.file))),
     device_parent   |-> AllRanks(r, LAMBDA rk : DeviceParentOK(RowsOf(rk))),
     host_parent     |-> AllRanks(r, LAMBDA rk : HostParentsOK(RowsOf(rk))),
     depth           |-> AllRanks(r, LAMBDA rk : DepthAgrees(RowsOf(rk))),
@@ -81,7 +81,7 @@ C16(r) ==
   IN
   [ no_exception |-> TRUE,
     in_domain    |-> WellFormedRows(R) /\ DistinctStarts(R, r.minLen),
-    input_faithful |-> Faithful(R, Range(r.file)),
+    input_faithful |-> RowsFaithful(R, Range(r.file)),
     patterns     |-> { out[j].pattern : j \in DOMAIN out } = P /\ Len(out) = Cardinality(P),
     counts       |-> \A j \in DOMAIN out : out[j].pattern \in P => out[j].count = PatCount(R, r.minLen, out[j].pattern),
     cpu_duration |-> \A j \in DOMAIN out : out[j].pattern \in P => out[j].cpu = PatCpu(R, r.minLen, out[j].pattern),
